@@ -19,7 +19,17 @@ func TestVerifC13LegacyServer(t *testing.T) {
 		src := vfGenClientSrc(rt, "src")
 		sni := vfGenDNSName(rt, "sni")
 		st.Eval()
-		p, err := vfPrepareClient(src, sni, rapid.Uint64().Draw(rt, "randseed"), nil)
+		var mod func(*Config)
+		if rapid.IntRange(0, 5).Draw(rt, "golang") == 0 {
+			// HelloGolang: the hello follows the Config's version bounds as given (0 = default, values above TLS 1.3 =
+			// no upper bound)
+			minV := rapid.SampledFrom([]uint16{0, VersionTLS10, VersionTLS12}).Draw(rt, "golang_min")
+			maxV := rapid.SampledFrom([]uint16{0, VersionTLS12, VersionTLS13, 0x0305, 0xffff}).Draw(rt, "golang_max")
+			src = vfClientSrc{Kind: "golang", Name: fmt.Sprintf("HelloGolang(min=%04x,max=%04x)", minV, maxV), ID: HelloGolang}
+			mod = func(c *Config) { c.MinVersion, c.MaxVersion = minV, maxV }
+			st.Class("source:HelloGolang")
+		}
+		p, err := vfPrepareClient(src, sni, rapid.Uint64().Draw(rt, "randseed"), mod)
 		if err != nil {
 			st.Violation(rt, "%s: %v", src, err)
 		}
